@@ -122,6 +122,8 @@ type rmHist struct {
 	Pruning [2]int64
 	Names   int `json:",omitempty"` // store-name variant (see rmNameVariant)
 	Reopen  int `json:",omitempty"` // 1 = the store is reopened before every commit, 2 = reopened with lazy loading
+	// SkipSettings: the settings-change phase of C12 is not run for this history
+	SkipSettings bool `json:",omitempty"`
 }
 
 func (h rmHist) String() string {
